@@ -278,6 +278,8 @@ class Interp:
             raise ValueError(g)
 
     def run(self):
+        for _ in range(self.case["np"] + 2 * self.case["na"]):
+            self.m.emit(("NewVar",))
         gen = self.solve(self.case["goal"])
         try:
             next(gen)
@@ -333,13 +335,13 @@ def gen_case(rng, cid, thorough):
 
     def body(depth, scope, forced_fail):
         sc = list(scope)
-        items = [item(depth, sc) for _ in range(rng.randint(1, 3))]
+        items = [item(depth, sc) for _ in range(rng.choice([1, 1, 2, 2, 3]) if depth <= 1 else rng.choice([1, 1, 2]))]
         if forced_fail:
             items.append(("fail",))
         return ("conj", items)
 
     def item(depth, scope):
-        if depth >= 3 or rng.random() < 0.45:
+        if depth >= 3 or rng.random() < (0.35, 0.6, 0.8)[depth]:
             return atom(scope)
         kind = rng.choice(["disj_fail", "disj3", "disj_leave", "disj_nat", "naf_fail", "naf_naf", "ite_cond_fail", "ite_then_fail",
                            "ite_nat", "findall_fail", "findall_sols", "catch", "disj_fail", "naf_fail"])
